@@ -19,7 +19,7 @@ func (i *ImportanceRatioReferenceCriterionProvider) Spec_Provide(rankedCriteria 
 		total += c.Weight
 	}
 	expectedWeight := i.NewCriterionImportance * total
-	return FindCriterionInRange(rankedCriteria, expectedWeight)
+	return Spec_FindCriterionInRange(rankedCriteria, expectedWeight)
 }
 
 func (i *ImportanceRatioReferenceCriterionManager) Spec_Identifier() string {
